@@ -66,8 +66,9 @@ def run_case(case, R):
 
     async def main(loop):
         cache = CharacteristicCacheMemory()
-        cache.async_create_or_update_map("aa:bb:cc:dd:ee:ff" if case.get("cache_lower", True) else "AA:BB:CC:DD:EE:FF", 1, DB, KEY.hex(), g0 or None)
-        cache.async_create_or_update_map("AA:BB:CC:DD:EE:FF", 1, DB, KEY.hex(), g0 or None)
+        cn = case.get("cn", 1)
+        cache.async_create_or_update_map("aa:bb:cc:dd:ee:ff" if case.get("cache_lower", True) else "AA:BB:CC:DD:EE:FF", cn, DB, KEY.hex(), g0 or None)
+        cache.async_create_or_update_map("AA:BB:CC:DD:EE:FF", cn, DB, KEY.hex(), g0 or None)
         ctl = BleController(char_cache=cache)
         pairing = ctl.load_pairing("alias", dict(PD))
         calls = []
@@ -81,11 +82,20 @@ def run_case(case, R):
             except Exception as e:  # noqa: BLE001
                 return e
             return None
-        # the scanner always sees a regular advertisement first
-        err = feed(regular_adv(g0))
-        if err is not None:
-            R.fail("C18.callback-raises", f"regular advertisement: {type(err).__name__}: {err}", exc=type(err).__name__)
-            return
+        # usually the scanner sees a regular advertisement first; after a restart ("cold") the first thing seen may be a notification, and the
+        # last accepted state number is the one restored from the cache
+        cold = bool(case.get("cold")) and g0 > 0
+        if cold:
+            R.cls("cold-start")
+            if pairing.description is None or pairing.description.state_num != g0:
+                R.fail("C18.state-not-restored", f"pairing loaded from a cache with state number {g0} (config number {cn}) starts from "
+                                                 f"{pairing.description.state_num if pairing.description else None}")
+                return
+        else:
+            err = feed(regular_adv(g0, cn=cn))
+            if err is not None:
+                R.fail("C18.callback-raises", f"regular advertisement: {type(err).__name__}: {err}", exc=type(err).__name__)
+                return
         await vtime.settle(loop)
         last = g0
         n_expected = 0
@@ -146,7 +156,7 @@ def run_case(case, R):
                 msg = notification(KEY, DEVICE_ID, g, g, iid, v8)[:2 + ev[3] % 22]
             elif kind == "regular":
                 g = (last + ev[3] % 5) & 0xFFFF
-                msg = regular_adv(g)
+                msg = regular_adv(g, cn=cn)
             else:
                 raise AssertionError(kind)
             for m in (variants if variants is not None else [msg]):
@@ -215,10 +225,13 @@ def histories(draw):
     events = [[draw(st.sampled_from(KINDS)), draw(st.integers(0, 6)), draw(st.integers(0, 10**6)), draw(st.integers(0, 10**6))] for _ in range(n)]
     if draw(st.integers(0, 9)) == 0:
         events.insert(draw(st.integers(0, len(events))), ["flip-all", draw(st.integers(0, 6)), 3, 0])
-    return {"g0": g0, "events": events}
+    return {"g0": g0, "events": events, "cold": draw(st.integers(0, 3)) == 0, "cn": draw(st.sampled_from([1, 1, 3, 40, 255]))}
 
 
 def enum_fixed(tier):
+    for g0, cn in ((100, 1), (900, 3), (40, 255), (65434, 7)):
+        yield {"g0": g0, "cn": cn, "cold": True, "events": [["older", 1, 1, 0], ["older", 2, 1, 30], ["older", 1, 2, 49], ["next", 1, 1, 0], ["older", 1, 1, 60], ["replay-current", 1, 0, 0],
+                                                              ["skip", 3, 1, 5], ["regular", 0, 0, 2], ["next", 2, 2, 0]]}
     for g0 in (0, 1, 100, 65000, 65434):
         for iid in range(len(FORMATS)):
             yield {"g0": g0, "events": [["next", iid, 1, 0], ["replay-current", iid, 1, 0], ["older", iid, 1, 0], ["next", iid, 3, 0],
@@ -237,7 +250,7 @@ SPEC = Property(
           "g0 in {0,1,100,65000,65434,65534,random}; history of 1..30 advertisements fed to BleController._device_detected with real bleak "
           "objects: genuine at last+1, last+k (k<100), beyond the window, replay of the current, older, wrong key, wrong advertising id as "
           "AAD, other device id, inner counter != nonce counter, single-bit flips (one random; all 128 bits of payload+tag in 'flip-all'), "
-          "truncated payloads, regular advertisements. Authenticity is decided by an independent truncated-tag AEAD. Non-trivial: an "
+          "truncated payloads, regular advertisements; optionally a cold start (pairing loaded from the cache, no advertisement seen yet, config number != state number). Authenticity is decided by an independent truncated-tag AEAD. Non-trivial: an "
           "accepted notification together with a replayed, older or forged one."),
     layers=[
         Layer("fixed-shapes", run_case, enumerate=enum_fixed, exhaustive=True, space="5 start numbers x 7 formats x a 16-event history; all 128 single-bit flips of one notification for 3 (quick) / 28 (thorough) (start, format) pairs; 22 truncations", min_nontrivial=30),
